@@ -761,6 +761,16 @@ func runC09Corr(ctx *core.Ctx) {
 	for _, i := range c09Ints {
 		ctx.Add("c09.decode", corrArgs{Type: "Duration", V: core.EncodeVal(types.Duration(i).String())})
 	}
+	// boundaries of ParseDuration's overflow checks and of UnitBytes' plain-integer reading
+	for _, s := range []string{"9223372036854775808ns", "-9223372036854775808ns", "9223372036854775807ns", "9223372036854775809ns",
+		"-2562047h47m16.854775808s", "2562047h47m16.854775807s", "2562047h47m16.854775808s", "2562048h", "-2562048h", "0", "-0", "+0", "+1s", "1h1h", "0.5h", ".5s", "1.s"} {
+		ctx.Count("exh:decode:Duration")
+		ctx.Add("c09.decode", corrArgs{Type: "Duration", V: core.EncodeVal(s)})
+	}
+	for _, s := range []string{"-1", "+5", "-0", "9223372036854775807", "9223372036854775808", "-9223372036854775808", "-9223372036854775809", "9007199254740993", "1_000", "-1k", "+1k", "- 1"} {
+		ctx.Count("exh:decode:UnitBytes")
+		ctx.Add("c09.decode", corrArgs{Type: "UnitBytes", V: core.EncodeVal(s)})
+	}
 	// every ulimit triple over {0, 1, -1, 5}
 	for _, a := range []int{0, 1, -1, 5} {
 		for _, b := range []int{0, 1, -1, 5} {
